@@ -277,4 +277,5 @@ def run(ctx):
     absent_only_if_not_found(ctx, '10')
     init_decided_by_content(ctx, '12')
     shared.allocation_state_belongs_to_a_record(ctx, '13')
+    shared.deferral_keeps_commit_order(ctx, '14')   # the log holds the commits in commit order: a prefix of the log is a prefix of the history
     shared.old_table_records_skipped(ctx, '11')   # a dropped table named by an old record must not make replay discard the log
